@@ -175,7 +175,25 @@ class CallMixin:
         if h is not None:
             return h(self, ci, args, kwargs, node)
         if ci.is_enum:
-            # StopReason(value)
+            # StopReason(value): member by value, ValueError otherwise
+            vals = self.enum_values(ci)
+            v = self.force(args[0])
+            if isinstance(v, EnumVal) and v.cls == ci:
+                return v
+            if isinstance(v, (str, int)):
+                for n, x in vals.items():
+                    if x == v:
+                        return self.enum_member(ci, n)
+                self.raise_builtin("ValueError", node)
+            if isinstance(v, Sym) and v.ty == "str" and all(isinstance(x, str) for x in vals.values()):
+                hit = z3.Or([v.t == z3.StringVal(x) for x in vals.values()])
+                if not self.path.branch(hit):
+                    self.raise_builtin("ValueError", node)
+                names = list(vals)
+                out = self.enum_const(ci, names[-1])
+                for n in reversed(names[:-1]):
+                    out = z3.If(v.t == z3.StringVal(vals[n]), self.enum_const(ci, n), out)
+                return EnumVal(ci, z3.simplify(out))
             raise Unsupported("enum by value")
         is_exc = self.lattice.is_exc_class(ci)
         obj = Obj(ci, {}, frozen=ci.frozen)
@@ -360,6 +378,20 @@ class CallMixin:
             if isinstance(v, EnumMap):
                 return EnumMap(v.cls, dict(v.slots), v.defaultdict)
             raise Unsupported("dict(...)")
+        if name == "dict.fromkeys":
+            src = self.force(args[0])
+            val = args[1] if len(args) > 1 else None
+            if isinstance(src, EnumMap):
+                # same value object for every present key (aliasing is real: the slots share `val`)
+                slots = {}
+                for n, v in src.slots.items():
+                    if v is None or v is UNDEF:
+                        continue
+                    slots[n] = SOpt(v.none, val) if isinstance(v, SOpt) else val
+                return EnumMap(src.cls, slots, False)
+            if isinstance(src, dict):
+                return {k: val for k in src}
+            raise Unsupported("dict.fromkeys source")
         if name == "set":
             if not args:
                 return PySet(())
@@ -538,11 +570,14 @@ class CallMixin:
                     return None
         if isinstance(obj, dict):
             if attr == "get":
-                k = args[0]
-                if isinstance(k, str):
+                k = self.dict_key(args[0])
+                if k is not None:
                     return obj.get(k, args[1] if len(args) > 1 else None)
                 if not obj:
                     return args[1] if len(args) > 1 else None
+            if attr == "clear":
+                obj.clear()
+                return None
             if attr == "items":
                 return list(obj.items())
             if attr == "values":
